@@ -16,6 +16,7 @@ use core::ops::{Bound, RangeBounds};
 pub const CAP: usize = 4;
 /// longest string key (bytes) the model compares; longer keys are a reported bound violation
 pub const KEYLEN: usize = 8;
+const _: () = assert!(KEYLEN == 8);
 
 /// Key comparison with concrete loop bounds (std's `str` comparison is a memcmp whose length CBMC
 /// does not fold: it unwinds to the bound on every lookup).
@@ -35,13 +36,15 @@ impl VKey for str {
             return a.len().cmp(&b.len());
         }
         assert!(a.len() <= KEYLEN, "VERIF: bound exceeded: model map string key length");
-        let mut i = 0;
-        while i < KEYLEN {
-            if i < a.len() && a[i] != b[i] {
-                return a[i].cmp(&b[i]);
+        let mut res = core::cmp::Ordering::Equal;
+        let mut done = false;
+        crate::unroll8!(i, {
+            if !done && i < a.len() && a[i] != b[i] {
+                res = a[i].cmp(&b[i]);
+                done = true;
             }
-            i += 1;
-        }
+        });
+        return res;
         core::cmp::Ordering::Equal
     }
 }
